@@ -1,0 +1,27 @@
+//go:build verif
+
+package xsync
+
+import "sync/atomic"
+
+// Pause points used by the runtime monitors in /verif. Compiled only with -tags verif; without the
+// tag verifHook is an empty function (verif_hook_off.go).
+
+var verifHookFn atomic.Pointer[func(point string)]
+
+// VerifSetHook installs f to be called at every pause point with the point's name, or removes the
+// installed function if f is nil. The function runs on the goroutine that reached the point, which
+// holds no lock of this package at that moment.
+func VerifSetHook(f func(point string)) {
+	if f == nil {
+		verifHookFn.Store(nil)
+		return
+	}
+	verifHookFn.Store(&f)
+}
+
+func verifHook(point string) {
+	if f := verifHookFn.Load(); f != nil {
+		(*f)(point)
+	}
+}
